@@ -92,6 +92,26 @@ def at_startup(rng, n):
     return out
 
 
+def cancelled_mid_open(engine, rng, n):
+    """the caller of a reconfigure gives up while the node is already opening the new processor; the node
+    finishes that swap; then further reconfigures (one of them failing to open) must each get THEIR OWN result"""
+    out = []
+    for i in range(n):
+        where = rng.choice(["pipeline", "s1", "d1"])
+        fail_third = i % 2 == 0
+        p = P("p1", where, 1, {}, open_delay_gen="2", open_delay_ms=150, open_err_gen="3" if fail_third else "")
+        steps = [{"do": "Emit", "src": "s1"}, {"do": "Reconfigure", "proc": "p1", "tag": "2", "ms": rng.choice([30, 60])},
+                 {"do": "AwaitCalls", "ms": 2000}, {"do": "Sleep", "ms": 300}, {"do": "Emit", "src": "s1"},
+                 {"do": "Reconfigure", "proc": "p1", "tag": "3", "ms": 0}, {"do": "AwaitCalls", "ms": 3000},
+                 {"do": "Emit", "src": "s1"}, {"do": "Reconfigure", "proc": "p1", "tag": "4", "ms": 0},
+                 {"do": "AwaitCalls", "ms": 3000}, {"do": "Emit", "src": "s1"}, {"do": "Settle"}]
+        sc = dpgen.scenario("%s-rcx-%03d" % (engine, i), engine, [S("s1", 5, [1] * 5)], [D("d1", gated=False)], [p], 0, 0,
+                            steps)
+        sc["features"] = sorted(set(dpgen.features_of(sc)) | {"reconf", "reconf-cancel-mid-open", "reconf-sequential"})
+        out.append(sc)
+    return out
+
+
 def nontrivial(sc, tr):
     calls = [(e["geni"]) for e in tr if e["ev"] == "ReconfCall"]
     if not calls:
@@ -126,6 +146,7 @@ def run(tier, seed):
     n = 80 if quick else 3000
     chk.run(random_reconf("v1", rng, n), name="reconf-random")
     chk.run(at_startup(rng, 6 if quick else 60), name="reconf-startup")
+    chk.run(cancelled_mid_open("v1", rng, 6 if quick else 40), name="reconf-cancel")
     chk.validate()
     return chk.finish(nontrivial,
                       "a reconfigure request (one, two in a row, one whose open fails, one whose caller gives up after "
